@@ -102,7 +102,7 @@ def decode_one(obs, gp, x, create=True, keep_inst=False):
     return rec
 
 
-def observe(case, max_enum=512, n_sample=192, keep_inst=False, vectors=None):
+def observe(case, max_enum=512, n_sample=192, keep_inst=False, vectors=None, before_processor=None):
     """case: {'spec':..., 'enc': 'COMPLETE'|'FAST', 'vseed': int}"""
     spec = case['spec']
     obs = Obs()
@@ -120,6 +120,8 @@ def observe(case, max_enum=512, n_sample=192, keep_inst=False, vectors=None):
     except Exception as e:  # noqa
         obs.build_exc, obs.build_stage = e, 'feasible'
         return obs
+    if before_processor is not None:
+        before_processor(obs.b)
     try:
         obs.gp = gp = build.processor(obs.b, case.get('enc', 'COMPLETE'))
         obs.des_vars = dv_meta(obs.b, gp)
